@@ -101,13 +101,19 @@ class Scenario:
                 for u in ("alice", "dave"):
                     for nm in (u + ".new", u, u + ".user", u + ".tmp", u + ".user.tmp", "." + u, u + ".user.new"):
                         open(os.path.join(st.base, ".tmp", nm), "wb").write(stale)
+            if kind == "dangling":
+                # dangling symbolic links under the names of users that do not exist, pointing at places
+                # outside the base directory whose parent exists (a sibling store, a decoy): stat says
+                # "absent", an exclusive create says "exists"
+                os.symlink("../other/ghost.user", os.path.join(st.base, "ghost.user"))
+                os.symlink("../other/phantom.admin", os.path.join(st.base, "phantom.admin"))
             if kind == "no-tmp":
                 shutil.rmtree(os.path.join(st.base, ".tmp"), ignore_errors=True)
 
     def clone(self):
         c = tl.Store.__new__(tl.Store)
         c.root = self.st.root + "-c%d" % random.getrandbits(40)
-        shutil.copytree(self.st.root, c.root)
+        shutil.copytree(self.st.root, c.root, symlinks=True)
         # the base path must stay identical to the one in the YAML: rewrite the config
         c.base = os.path.join(c.root, "base")
         c.cfg = os.path.join(c.root, "store.yaml")
@@ -167,6 +173,15 @@ def make_case(prop, st, op, before, after, res, fault, cls, outside_changed=None
                 viol.append("the temp file %s is opened with O_CREAT but without O_EXCL (%s): concurrent writers of the same user share it"
                             % (a[1][1], a[5][:120]))
                 break
+    if op[0] in ("add", "init"):
+        # the reservation of the final name is an EXCLUSIVE create (the event ECreate (LFile f) of the model):
+        # without O_EXCL a dangling symbolic link under that name is followed - an object outside the base
+        # directory is created - and two adds of one name are no longer mutually exclusive
+        for a in res["accesses"]:
+            if a[0] == "KOpen" and a[1][0] == "file" and "O_CREAT" in a[5] and "O_EXCL" not in a[5]:
+                viol.append("the hash file %s is opened with O_CREAT but without O_EXCL (%s): the reservation is not exclusive "
+                            "(a dangling symbolic link is followed; concurrent adds of one name both proceed)" % (a[1][1], a[5][:120]))
+                break
     if prop == "C08" and op[0] in ("auth", "exists", "list", "listfull", "check"):
         # a reader in another process sees each record in ONE state (old or new) only if it reads the
         # file through one open: a second open of the same name may already be the writer's new file
@@ -211,7 +226,7 @@ def gen_cases(prop, seed, tier, want_faults=False, want_bad_names=False, fault_o
     rng = random.Random(seed)
     random.seed(seed)
     cases = []
-    kinds = ["plain", "small", "nolf", "binary", "longline", "tmp-residue", "no-tmp", "empty"]
+    kinds = ["plain", "small", "nolf", "binary", "longline", "tmp-residue", "no-tmp", "empty", "dangling"]
     if tier == "thorough":
         kinds.append("big")
     scens = {k: Scenario(rng, k) for k in kinds}
@@ -231,6 +246,9 @@ def gen_cases(prop, seed, tier, want_faults=False, want_bad_names=False, fault_o
             "tmp-residue": [("add", "dave", "davepw", False), ("update", "alice", "pw9"), ("check",), ("list",), ("listfull",),
                             ("auth", "alice", "alicepw"), ("exists", "alice")],
             "no-tmp": [("add", "dave", "davepw", False), ("update", "alice", "pw9")],
+            # (exists / set-admin are left out: stat follows the link, the model's directory does not)
+            "dangling": [("add", "ghost", "ghostpw", False), ("add", "phantom", "phantompw", True), ("update", "ghost", "pw2"),
+                         ("auth", "ghost", "ghostpw"), ("add", "dave", "davepw", False)],
             "empty": [("init", "root", "rootpw"), ("add", "first", "pw", False), ("check",)],
         }
         for k, ops in ops_by_scen.items():
